@@ -86,7 +86,8 @@ def run_cases(ck: Check, n_small: int, n_large: int):
         if not np.allclose(k, kk, rtol=1e-13, atol=0):
             ck.fail("wave numbers are not the discrete Fourier wave numbers of the grid", {**sig, "check": "k_is_dft_wavenumber"}, case)
         # invariances on the real code
-        c = rng.choice([-2.5, 0.01, 7.0])
+        # any non-zero constant, also very small / very large ones (as long as c^2 sum f^2 neither under- nor overflows)
+        c = rng.choice([-2.5, 0.01, 7.0, 1e-7, -3e-9, 1e9, 1e-30, 1e40])
         k2, s2 = sf_raw(ScalarField(grid, c * data))
         if not np.allclose(s2, s, rtol=1e-10, atol=1e-14) or not np.array_equal(k2, k):
             ck.fail(f"structure factor changes when the field is multiplied by {c}", {**sig, "check": "sf_scale_invariant"}, case)
